@@ -1,6 +1,6 @@
 SPECIFICATION Spec
 CONSTANTS
-  L = 5
+  L = 4
   Alphabet = {32, 9, 13, 10, 120, 112}
   PatAlphabet = {10, 120, 112}
 INVARIANT Sufficient
